@@ -461,6 +461,47 @@ def both_digest(f):
     return d
 
 
+R9_WRITERS = {
+    "libNewHeader": "clears the table of a new Lib",
+    "libGetHeader": "fills the table from the bytes of the file (and libChkHeader judges it)",
+    "libAddSection": "writer side: a section being added to a library under construction",
+    "libPutSection": "writer side: the length of a section just written",
+}
+
+
+def r9(rep):
+    """What a library file says about itself is read once, into the section table, and then *judged* (libChkHeader; the short
+    read test of libGetSection).  Nothing between the reading and the use may replace what was read by something that cannot
+    fail: a length recomputed from the size of the file `because a file ends where it ends` agrees with a truncated file by
+    construction, the short-read test passes against exactly the bytes that are left, and the cut library is used with stale
+    bytes of the shared section buffer (exit 0, another .c and .fm).  The name/offset/length fields of hdr.Section[] are
+    written only by the four confirmed functions of lib.c."""
+    f = common.extract("lib.c", all_trees=True)
+    n = 0
+    for name, fn in sorted(f.funcs.items()):
+        if "body" not in fn or not fn.get("file", "").endswith("lib.c"):
+            continue
+        for x in walk(fn["body"]):
+            if not (x["k"] in ("BinaryOperator", "CompoundAssignOperator") and x["op"].endswith("=") and x["op"] not in ("==", "!=", "<=", ">=")):
+                continue
+            l = strip(x["c"][0])
+            if l is None or l["k"] != "MemberExpr" or l["n"] not in ("length", "offset", "name"):
+                continue
+            if not any(y["k"] == "MemberExpr" and y["n"] == "Section" for y in walk(l)):
+                continue
+            n += 1
+            key = "section-table-read-not-recomputed:%s:%s" % (name, l["n"])
+            if name in R9_WRITERS:
+                rep.ok("R9", key + "@%d" % x["l"], nontrivial=(name == "libGetHeader"))
+            else:
+                rep.violation("R9", key, "lib.c:%d (%s)" % (x["l"], name),
+                              "%s overwrites the %s of a section-table entry of a library that has been read: the value the file "
+                              "gave is no longer what the later checks look at -- a length derived from the file's size makes a "
+                              "file cut inside its last section pass the short-read test, and the truncated library is used "
+                              "silently" % (name, l["n"]))
+    rep.floor("stores into the section table of lib.c", n, 8)
+
+
 def run(tier, only=None):
     rep = common.Report("C17", tier, EXPLANATION)
     units = common.compiler_units()
@@ -552,6 +593,7 @@ def run(tier, only=None):
     rep.floor("file-derived table indexes", nt, 6)
     rep.assumptions.append("scope: files read as libraries/archives (lib.c, archive.c, file.c helpers); message catalogues, "
                            "terminal descriptions and the C++ type list are not library inputs")
+    r9(rep)
     from . import nullsearch
     nullsearch.report(rep, "R8", ("lib.c", "archive.c", "foam.c", "buffer.c", "sexpr.c", "file.c", "emit.c", "fint.c"), floor=3)
     return rep
